@@ -29,11 +29,16 @@ package html
 
 //@ func Lexer.moveTemplate
 //@   preserves[S] hScan(l)
+//@   ensures[T] sameBytes()
 //@   loop * candidate l.r.start == old(l.r.start)
 //@   loop * decreases len(l.r.buf) - l.r.pos
 
 //@ func Lexer.shiftBogusComment
 //@   preserves[S] hScan(l)
+//@   ensures[T]  sameMem(result, l.r.buf[old(l.r.start):l.r.pos]) && cap(result) == len(result)
+//@   ensures[T]  l.text == old(l.text) || within(l.text, result)
+//@   ensures[T,C02] lowerEdit(l)
+//@   loop * candidate[T] lowerEdit(l)
 //@   requires[S] l.r.pos - l.r.start >= 2 || (l.r.pos - l.r.start == 1 && l.r.buf[l.r.pos] == '?')
 //@   ensures[S]  l.r.start == l.r.pos
 //@   loop * candidate l.r.start == old(l.r.start)
@@ -42,6 +47,10 @@ package html
 
 //@ func Lexer.shiftEndTag
 //@   preserves[S] hScan(l)
+//@   ensures[T]  sameMem(result, l.r.buf[old(l.r.start):l.r.pos]) && cap(result) == len(result)
+//@   ensures[T]  l.text == old(l.text) || within(l.text, result)
+//@   ensures[T,C02] lowerEdit(l)
+//@   loop * candidate[T] lowerEdit(l)
 //@   requires[S] l.r.pos - l.r.start >= 2
 //@   ensures[S]  l.r.start == l.r.pos
 //@   loop * candidate l.r.start == old(l.r.start)
@@ -51,9 +60,14 @@ package html
 
 //@ func Lexer.shiftAttribute
 //@   preserves[S] hScan(l)
+//@   ensures[T]  sameMem(result, l.r.buf[old(l.r.start):l.r.pos]) && cap(result) == len(result)
+//@   ensures[T]  l.text == old(l.text) || within(l.text, result)
+//@   ensures[T,C02] lowerEdit(l)
+//@   loop * candidate[T] lowerEdit(l)
 //@   requires[S] !isHTMLWS(l.r.buf[l.r.pos]) && l.r.buf[l.r.pos] != '>' && l.r.pos < len(l.r.buf)-1
 //@   requires[S] l.r.buf[l.r.pos] == '/' ==> l.r.buf[l.r.pos+1] != '>'
 //@   ensures[S]  l.r.start == l.r.pos && l.r.pos > old(l.r.pos)
+//@   ensures[T]  l.attrVal == nil || within(l.attrVal, result)
 //@   loop * candidate l.r.start == old(l.r.start)
 //@   loop * candidate nameStart == old(l.r.pos) - old(l.r.start)
 //@   loop * candidate nameStart <= l.r.pos - l.r.start
@@ -67,6 +81,10 @@ package html
 
 //@ func Lexer.shiftXML
 //@   preserves[S] hScan(l)
+//@   ensures[T]  sameMem(result, l.r.buf[old(l.r.start):l.r.pos]) && cap(result) == len(result)
+//@   ensures[T]  l.text == old(l.text) || within(l.text, result)
+//@   ensures[T,C02] lowerEdit(l)
+//@   loop * candidate[T] lowerEdit(l)
 //@   ensures[S]  l.r.start == l.r.pos
 //@   loop * candidate l.r.start == old(l.r.start)
 //@   loop * candidate mark <= l.r.pos - l.r.start - 2
@@ -75,16 +93,25 @@ package html
 
 //@ func Lexer.shiftStartTag
 //@   preserves[S] hScan(l)
+//@   ensures[T]  result0 != ErrorToken ==> sameMem(result1, l.r.buf[old(l.r.start):l.r.pos]) && cap(result1) == len(result1)
+//@   ensures[T]  l.text == old(l.text) || result0 == ErrorToken || within(l.text, result1)
+//@   ensures[T,C02] lowerEdit(l)
+//@   loop * candidate[T] lowerEdit(l)
 //@   requires[S] l.r.pos - l.r.start >= 1
 //@   ensures[S]  l.r.start == l.r.pos
 //@   ensures[S]  result0 == ErrorToken ==> result1 == nil
+//@   ensures[S]  result0 == StartTagToken || result0 == ErrorToken || result0 == SVGToken || result0 == MathToken || result0 == XMLToken
 //@   loop * candidate l.r.start == old(l.r.start)
 //@   loop * decreases len(l.r.buf) - l.r.pos
 
 //@ func Lexer.readMarkup
 //@   preserves[S] hScan(l)
+//@   ensures[T]  result0 != ErrorToken ==> sameMem(result1, l.r.buf[old(l.r.start):l.r.pos]) && cap(result1) == len(result1)
+//@   ensures[T]  l.text == old(l.text) || result0 == ErrorToken || within(l.text, result1)
+//@   ensures[T,C02] lowerEdit(l)
+//@   loop * candidate[T] lowerEdit(l)
 //@   requires[S] l.r.pos - l.r.start == 2
-//@   ensures[S]  l.r.start == l.r.pos && result0 != ErrorToken
+//@   ensures[S]  l.r.start == l.r.pos && (result0 == CommentToken || result0 == TextToken || result0 == DoctypeToken)
 //@   loop * candidate l.r.start == old(l.r.start)
 //@   loop * candidate l.r.pos - l.r.start >= 4
 //@   loop * candidate l.r.pos - l.r.start >= 9
@@ -92,6 +119,10 @@ package html
 
 //@ func Lexer.shiftRawText
 //@   preserves[S] hScan(l)
+//@   ensures[T]  sameMem(result, l.r.buf[old(l.r.start):l.r.pos]) && cap(result) == len(result)
+//@   ensures[T]  l.text == old(l.text) || within(l.text, result)
+//@   ensures[T,C02] lowerEdit(l)
+//@   loop * candidate[T] lowerEdit(l)
 //@   ensures[S]  l.r.start == l.r.pos && len(result) == l.r.pos - old(l.r.start)
 //@   loop * candidate l.r.start == old(l.r.start)
 //@   loop * candidate 0 <= mark
@@ -111,3 +142,12 @@ package html
 //@   loop * candidate l.r.start == old(l.r.start)
 //@   loop * candidate l.inTag == old(l.inTag)
 //@   loop * decreases len(l.r.buf) - l.r.pos
+//@   requires[T] l.r.start == l.r.pos
+//@   ensures[T,C02] @slice: result0 != ErrorToken ==> len(result1) > 0 && cap(result1) == len(result1) &&
+//@        hOff(l, result1) >= old(l.r.pos) && hOff(l, result1) + len(result1) == l.r.pos
+//@   ensures[T,C02] @skipped: result0 != ErrorToken ==> forall(k, old(l.r.pos), hOff(l, result1), isHTMLWS(l.r.buf[k]))
+//@   ensures[T,C02] @parts: (l.text == nil || result0 == ErrorToken || within(l.text, result1)) && (result0 == AttributeToken ==> l.attrVal == nil || within(l.attrVal, result1))
+//@   ensures[T,C02] @frame: lowerEdit(l)
+//@   ensures[T,C02] @shifted: result0 != ErrorToken ==> l.r.start == l.r.pos
+//@   loop * candidate[T] forall(k, old(l.r.pos), l.r.pos, isHTMLWS(l.r.buf[k]))
+//@   loop * candidate[T] lowerEdit(l)
